@@ -25,7 +25,7 @@ RULE = ("wallets from all constructors x both networks x accounts/intervals as C
         "xprv x6, all BIP85 outputs) plus every secret-classified leaf of the unfiltered output, by equality, substring, "
         "Base58Check classification and BIP39-run detection; CLI --paranoia runs (stdout and -f file) go through the same "
         "oracle; distinct = distinct (monitor, case) digests"
-        " EXTENSIONS: + export faults after validation (trailing slash, dangling symlink, missing directory) with stdout / stderr / files scanned, one in-process CLI run of 2^15+600 rows per block in fast mode, every output channel for every constructor, the filter on generate() results extended to K-1 .. 2K+1 rows per section for every harvested threshold K, export targets on another file system than the temp / working directory")
+        " EXTENSIONS: + export faults after validation (trailing slash, dangling symlink, missing directory) with stdout / stderr / files scanned, one in-process CLI run of 2^15+600 rows per block in fast mode, every output channel for every constructor, the filter on generate() results extended to K-1 .. 2K+1 rows per section for every harvested threshold K, export targets on another file system than the temp / working directory, export names that mean something elsewhere ('-', '~', leading blank)")
 LEVEL_TEXT = ("The real filter's output (in-process and through the CLI) is scanned leaf by leaf by an independent secret "
               "classifier fed with ground truth recomputed from the seed, so a leak under a key unknown today, inside a longer "
               "string or at another nesting depth is still seen; the public part must be identical to the unfiltered output.")
@@ -223,7 +223,13 @@ def judge_cli(ctx, case):
                 otherdir = other_filesystem_dir()
                 if otherdir:
                     target = os.path.join(otherdir, "out.json")
-            args += ["-f", target]
+            if case.get("odd_name") and not case.get("other_fs"):
+                # a file NAME that means something elsewhere ('-' = standard output by convention, '~', a leading blank): wherever
+                # the output ends up - a file of that name or the standard output - it is the filtered one
+                target = os.path.join(d, case["odd_name"])
+                args += ["-f", case["odd_name"]]
+            else:
+                args += ["-f", target]
         mn_echo, pw_echo = mn, pw
         if src == "from-mnemonic":
             args += ["from-mnemonic", mn] + (["--password", pw] if pw else [])
@@ -259,6 +265,8 @@ def judge_cli(ctx, case):
                              cls="cli|%s|export-fault-%s|rc%s" % (src, fault, "0" if p.returncode == 0 else "!=0"), mech="C15.cli.secret_after_export_failure")
         if p.returncode != 0:
             return ctx.judge("cli_paranoia", False, case, "exit 0", {"rc": p.returncode, "stderr": p.stderr[-300:]}, cls="cli|failed", mech="C15.cli.failed")
+        if target and case.get("odd_name") and not os.path.isfile(target):
+            target = None                       # (the name was read as "standard output")
         text = open(target).read() if target else p.stdout
         other = p.stdout if target else ""
         try:
@@ -357,7 +365,7 @@ def run(ctx):
         s = rnd.choice([0, 3, H - 2])
         judge_cli(ctx, {"entropy": gen.rbytes(rnd, rnd.choice([16, 32])), "passphrase": rnd.choice(["", "0OIl-marker-passphrase"]),
                         "testnet": bool(j & 1), "account": rnd.choice([0, 5, 9, 44, 49, 84, 83696968]), "start": s, "end": s + rnd.randrange(0, 3),
-                        "to_file": bool((j >> 1) & 1), "other_fs": rnd.random() < 0.5,
+                        "to_file": bool((j >> 1) & 1), "other_fs": rnd.random() < 0.4, "odd_name": rnd.choice([None, "-", "-", "~", " out.json"]),
                         "source": ["from-mnemonic", "from-bip39-seed", "from-master-xprv", "from-entropy-hex"][(j >> 2) % 4],
                         "purpose": rnd.choice([44, 49, 84])})
     for j0 in range(ctx.scale(8, 320)):
